@@ -126,6 +126,19 @@ impl Scenario for UnbondLc {
                     prefix.push(unbond(BOB, BSEI, 1));
                     prefix.push(advance(1));
                 }
+                "zero_batch" => {
+                    // rates 0.9; batch 1 shared by alice and bob, batch 2 holds a single one-unit request (worth 0 coins)
+                    prefix.push(slash_bonded("val1", 1, 10));
+                    prefix.push(slash_bonded("val2", 1, 10));
+                    prefix.push(check_slashing(CAROL));
+                    prefix.push(unbond(ALICE, BSEI, 30 * k));
+                    prefix.push(unbond(BOB, BSEI, 30 * k));
+                    prefix.push(advance(self.epoch + 1));
+                    prefix.push(unbond(ALICE, BSEI, 5 * k));
+                    prefix.push(advance(self.epoch + 1));
+                    prefix.push(unbond(BOB, BSEI, 1));
+                    prefix.push(advance(1));
+                }
                 "ten_batches" => {
                     // a long history: ten closed batches, claims of one user on both sides of the 9/10 boundary,
                     // the older ones matured and nobody has withdrawn yet
@@ -546,11 +559,12 @@ fn c01_step(po: &HubObs, g: &G, a: &Action, out: &Outcome, qo: &HubObs, released
     }
 }
 
-/// users with matured claims (batch time + U <= now), with a conservative lower bound of their value
-fn matured_users(c: &Chain, o: &HubObs) -> Vec<(String, u128, usize)> {
+/// users with matured claims (batch time + U <= now): (user, value of all matured claims — exact for released
+/// batches, pro-rata estimate for matured-but-unreleased ones —, number of claims, exact value of the released part,
+/// number of unreleased claims)
+pub fn matured_users_ex(c: &Chain, o: &HubObs) -> Vec<(String, u128, usize, u128, usize)> {
     let mut out = vec![];
     let u_period = o.params.unbonding_period;
-    // per unreleased matured group: exact pro-rata share of what arrived
     let arrived = o.hub_usei.saturating_sub(o.state.prev_hub_balance.u128());
     let mut group_total = 0u128;
     for h in &o.history {
@@ -560,11 +574,15 @@ fn matured_users(c: &Chain, o: &HubObs) -> Vec<(String, u128, usize)> {
     }
     for (u, reqs) in &o.requests {
         let mut val = 0u128;
+        let mut rel = 0u128;
         let mut n = 0usize;
+        let mut n_unrel = 0usize;
         for (b, x, y) in reqs {
             if let Some(h) = o.hist(*b) {
                 if h.released {
-                    val += mul_dec(*y, h.stsei_withdraw_rate) + mul_dec(*x, h.bsei_withdraw_rate);
+                    let v = mul_dec(*y, h.stsei_withdraw_rate) + mul_dec(*x, h.bsei_withdraw_rate);
+                    val += v;
+                    rel += v;
                     n += 1;
                 } else if h.time + u_period <= c.time {
                     let nominal = mul_dec(*y, h.stsei_applied_exchange_rate) + mul_dec(*x, h.bsei_applied_exchange_rate);
@@ -572,14 +590,18 @@ fn matured_users(c: &Chain, o: &HubObs) -> Vec<(String, u128, usize)> {
                         val += muldiv(nominal, arrived.min(group_total), group_total);
                     }
                     n += 1;
+                    n_unrel += 1;
                 }
             }
         }
         if n > 0 {
-            out.push((u.clone(), val, n));
+            out.push((u.clone(), val, n, rel, n_unrel));
         }
     }
     out
+}
+fn matured_users(c: &Chain, o: &HubObs) -> Vec<(String, u128, usize)> {
+    matured_users_ex(c, o).into_iter().map(|m| (m.0, m.1, m.2)).collect()
 }
 
 fn do_withdraw(c: &mut Chain, u: &str) -> (Result<u128, String>, u128) {
@@ -619,6 +641,7 @@ fn c01_probe(_sc: &UnbondLc, c: &Chain, o: &HubObs, cx: &mut Cx) {
     if mu.is_empty() {
         return;
     }
+    let released_value: std::collections::BTreeMap<String, u128> = matured_users_ex(c, o).into_iter().map(|m| (m.0, m.3)).collect();
     cx.trigger("c01_probe_states_with_matured_claims");
     // every order of all users with matured claims
     let perms = permutations(mu.len());
@@ -644,7 +667,7 @@ fn c01_probe(_sc: &UnbondLc, c: &Chain, o: &HubObs, cx: &mut Cx) {
                 Err(e) => {
                     // a refusal is acceptable only for claims worth less than one unit (conservative bound); the
                     // verdict depends on the value of the claims, never on the wording of the error
-                    if *val >= 1 + 3 * (*n as u128) {
+                    if *val >= 1 + 3 * (*n as u128) || (p[0] == i && released_value.get(u).copied().unwrap_or(0) >= 1) {
                         if e.contains("No withdrawable") {
                             cx.viol("C01.withdraw_refused", "matured claims worth at least one unit were refused", format!("user {} pro-rata value {} over {} claims: {}", u, val, n, e));
                         } else {
@@ -684,13 +707,14 @@ pub fn c09_matured_probe(c: &Chain, o: &HubObs, cx: &mut Cx) {
         let mut cc = c.clone();
         for round in 0..3 {
             let oo = HubObs::new(&cc);
-            let Some((_, val, n)) = matured_users(&cc, &oo).into_iter().find(|m| m.0 == *u) else { break };
+            let Some((_, val, n, released_value, _)) = matured_users_ex(&cc, &oo).into_iter().find(|m| m.0 == *u) else { break };
             let (r, _) = do_withdraw(&mut cc, u);
             cx.probe(1);
             match r {
                 Ok(_) => continue,
                 Err(e) => {
-                    if val >= 1 + 3 * n as u128 && (clean || round > 0 || !e.contains("No withdrawable")) {
+                    // a claim in an already released batch has an exact value: one unit of it is enough
+                    if released_value >= 1 || (val >= 1 + 3 * n as u128 && (clean || round > 0 || !e.contains("No withdrawable"))) {
                         let what = if e.contains("No withdrawable") { "claims worth at least one unit refused after the unbonding period".to_string() } else { format!("withdraw after the unbonding period fails: {}", classify_err(&e)) };
                         cx.viol("C09.can_withdraw", what, format!("{} (attempt {}): matured value {} over {} claims: {}", u, round + 1, val, n, e));
                     }
